@@ -319,6 +319,10 @@ func (m *Machine) explore(fn *ssa.Function, args []Value, env []Value) *summary 
 		}
 		m.pc = m.pc[:outerPCLen]
 		m.depth = outerDepth
+		m.varUB, m.varLB = map[int]uint64{}, map[int]uint64{}
+		for _, t := range m.pc {
+			m.noteBound(t)
+		}
 	}
 	maxNames := map[string]int{}
 	var results []subResult
